@@ -322,7 +322,81 @@ func app(f string, args ...string) string {
 	if len(args) == 0 {
 		return f
 	}
+	// projections of constructor terms are simplified syntactically
+	if len(args) == 1 && (strings.HasPrefix(f, "f_St_") || strings.HasPrefix(f, "arr_") || strings.HasPrefix(f, "len_") || strings.HasPrefix(f, "mv_") || strings.HasPrefix(f, "mh_") || strings.HasPrefix(f, "mc_")) && strings.HasPrefix(args[0], "(mk_") {
+		if r, ok := project(f, args[0]); ok {
+			return r
+		}
+	}
+	if f == "select" && len(args) == 2 && strings.HasPrefix(args[0], "(store ") {
+		if parts := splitArgs(args[0]); len(parts) == 4 && parts[2] == args[1] {
+			return parts[3]
+		}
+	}
 	return "(" + f + " " + strings.Join(args, " ") + ")"
+}
+
+// splitArgs splits "(f a b c)" into [f a b c] at bracket depth 1.
+func splitArgs(t string) []string {
+	if len(t) < 2 || t[0] != '(' {
+		return nil
+	}
+	var out []string
+	depth := 0
+	start := 1
+	inBar := false
+	for i := 1; i < len(t)-1; i++ {
+		c := t[i]
+		if c == '|' {
+			inBar = !inBar
+		}
+		if inBar {
+			continue
+		}
+		switch c {
+		case '(':
+			depth++
+		case ')':
+			depth--
+		case ' ':
+			if depth == 0 {
+				if i > start {
+					out = append(out, t[start:i])
+				}
+				start = i + 1
+			}
+		}
+	}
+	if start < len(t)-1 {
+		out = append(out, t[start:len(t)-1])
+	}
+	return out
+}
+
+var projIndex = map[string]int{}
+
+func project(sel, term string) (string, bool) {
+	parts := splitArgs(term)
+	if len(parts) < 2 {
+		return "", false
+	}
+	ctor := parts[0]
+	sort := strings.TrimPrefix(ctor, "mk_")
+	switch {
+	case sel == "arr_"+sort || sel == "mv_"+sort:
+		return parts[1], true
+	case sel == "len_"+sort && len(parts) == 3:
+		return parts[2], true
+	case sel == "mh_"+sort && len(parts) == 4:
+		return parts[2], true
+	case sel == "mc_"+sort && len(parts) == 4:
+		return parts[3], true
+	case strings.HasPrefix(sel, "f_"+sort+"_"):
+		if idx, ok := projIndex[sel]; ok && idx+1 < len(parts) {
+			return parts[idx+1], true
+		}
+	}
+	return "", false
 }
 
 func eq(a, b string) string {
